@@ -45,6 +45,11 @@ func zzNewExec(nAdmins int, gasPrice *big.Int) *BlockExecutor {
 	if err != nil {
 		panic(err)
 	}
+	return zzNewExecOn(lg, nAdmins, gasPrice)
+}
+
+// zzNewExecOn builds a BlockExecutor over the given ledger.
+func zzNewExecOn(lg *ledger.Ledger, nAdmins int, gasPrice *big.Int) *BlockExecutor {
 	cfg := repo.Config{}
 	cfg.Genesis.ChainID = 1356
 	cfg.Executor.Type = "serial"
